@@ -138,44 +138,78 @@ def check(repo: Repo, run: Run) -> None:
                     perr = bool(rets) and all(isinstance(r.value, ast.Constant) and r.value.value == 1 for r in rets) and "error_text(" in ast.unparse(h)
     run.ob("C20.S1", "main[parse-error]", perr, "a syntax error prints the located message (error_text with line/column) and returns 1", mn.loc(main))
     # S2 -----------------------------------------------------------------
-    loops = [n for n in ast.walk(main) if isinstance(n, ast.For) and "process_json_doc" in ast.unparse(n)]
-    if not loops:
-        raise AnchorMissing("main(): NDJSON loop")
-    loop = loops[0]
-    body_src = ast.unparse(loop)
-    fold_ok = False
-    for st in loop.body:
-        if isinstance(st, ast.Assign) and isinstance(st.targets[0], ast.Name):
-            v = strip_cast(st.value)
-            tgt = st.targets[0].id
-            if isinstance(v, ast.Call) and dotted(v.func) == "max" and any(isinstance(a, ast.Name) and a.id == tgt for a in v.args) and any("process_json_doc" in ast.unparse(a) for a in v.args):
-                fold_ok = True
-                acc = tgt
-    init_ok = False
-    if fold_ok:
-        parent = getattr(loop, "_parent", None)
-        sibs = getattr(parent, "body", []) if parent is not None else []
-        if loop in getattr(parent, "orelse", []):
-            sibs = parent.orelse
-        for st in sibs:
-            if st is loop:
+    from ..core.model import deref
+
+    main_n = mn.func_n("main")  # closures / private helpers around process_json_doc expanded in place
+    loops = [n for n in ast.walk(main_n) if isinstance(n, ast.For) and "process_json_doc" in ast.unparse(n)]
+    loop = loops[0] if loops else None
+    if loop is None:
+        run.inconclusive("C20.S2", "main[ndjson]|fold", "no loop over the input documents that calls process_json_doc was found in main()")
+    else:
+        fold_ok, bad_fold, acc = False, None, None
+        for st in loop.body:
+            if isinstance(st, (ast.Assign, ast.AnnAssign)) and st.value is not None:
+                tgt_node = st.targets[0] if isinstance(st, ast.Assign) else st.target
+                if not isinstance(tgt_node, ast.Name):
+                    continue
+                v = strip_cast(st.value)
+                tgt = tgt_node.id
+                calls_doc = "process_json_doc" in ast.unparse(v)
+                # one level of local indirection: line_status = process_json_doc(..); summary = max(summary, line_status)
+                per_doc = {t.id for s2 in loop.body if isinstance(s2, ast.Assign) and "process_json_doc" in ast.unparse(s2.value) for t in s2.targets if isinstance(t, ast.Name)}
+                uses_doc = calls_doc or any(isinstance(a, ast.Name) and a.id in per_doc for a in ast.walk(v))
+                if isinstance(v, ast.Call) and dotted(v.func) == "max" and any(isinstance(a, ast.Name) and a.id == tgt for a in v.args) and uses_doc:
+                    fold_ok, acc = True, tgt
+                elif isinstance(v, ast.Call) and dotted(v.func) == "min" and uses_doc:
+                    bad_fold = f"`{ast.unparse(st)[:70]}` keeps the smallest status"
+                elif tgt not in per_doc and uses_doc and not (isinstance(v, ast.Call) and dotted(v.func) == "max"):
+                    pass
+            if isinstance(st, ast.AugAssign) and "process_json_doc" in ast.unparse(st.value) and isinstance(st.op, (ast.BitOr, ast.Add)):
+                bad_fold = f"`{ast.unparse(st)[:70]}` combines statuses with {type(st.op).__name__}, not max"
+        if bad_fold:
+            run.ob("C20.S2", "main[ndjson]|fold", False, f"the NDJSON status is not the maximum of the per-document statuses: {bad_fold}", mn.loc(loop))
+        elif not fold_ok:
+            run.inconclusive("C20.S2", "main[ndjson]|fold", "no `status = max(status, <per-document status>)` fold was recognised in the document loop")
+        else:
+            init = None
+            parent = getattr(loop, "_parent", None)
+            sibs = getattr(parent, "body", []) if parent is not None else []
+            if loop in getattr(parent, "orelse", []):
+                sibs = parent.orelse
+            for st in sibs:
+                if st is loop:
+                    break
+                if isinstance(st, (ast.Assign, ast.AnnAssign)) and st.value is not None:
+                    t0 = st.targets[0] if isinstance(st, ast.Assign) else st.target
+                    if isinstance(t0, ast.Name) and t0.id == acc:
+                        init = st.value
+            if init is None:
+                run.inconclusive("C20.S2", "main[ndjson]|fold", f"the initial value of `{acc}` was not found next to the loop")
+            else:
+                iv = strip_cast(init)
+                run.ob("C20.S2", "main[ndjson]|fold", isinstance(iv, ast.Constant) and iv.value == 0,
+                       f"the NDJSON status is max-folded over the documents starting at {ast.unparse(iv)} (must start at 0: no documents, or all successful, is success)", mn.loc(loop))
+        # S3 -----------------------------------------------------------------
+        src = loop.iter
+        for _ in range(3):
+            nxt = deref(mn, src, None, main_n)
+            if nxt is src:
                 break
-            if isinstance(st, ast.Assign) and isinstance(st.targets[0], ast.Name) and st.targets[0].id == acc and isinstance(st.value, ast.Constant) and st.value.value == 0:
-                init_ok = True
-    run.ob("C20.S2", "main[ndjson]|fold", fold_ok and init_ok, f"the NDJSON status is max-folded over the documents (fold: {fold_ok}) starting at 0 (init: {init_ok})", mn.loc(loop))
-    # S3 -----------------------------------------------------------------
-    it = ast.unparse(loop.iter)
-    framing_ok = it == "sys.stdin" or it.endswith(".split('\\n')") or "readline" in it
-    run.ob("C20.S3", "main[ndjson]|framing", framing_ok and "splitlines" not in it,
-           f"documents are taken from `{it}`: " + ("the file's own line iteration (splits on line feeds only)" if framing_ok and "splitlines" not in it else
-           "str.splitlines() also splits on U+2028, U+2029, U+0085, VT, FF, FS/GS/RS which may occur raw inside JSON strings: one document becomes several malformed ones" if "splitlines" in it else "unrecognised framing"),
-           mn.loc(loop))
+            src = nxt
+        it = ast.unparse(src)
+        if "splitlines" in it:
+            run.ob("C20.S3", "main[ndjson]|framing", False,
+                   f"documents are taken from `{it}`: str.splitlines() also splits on U+2028, U+2029, U+0085, VT, FF, FS/GS/RS which may occur raw inside JSON strings: one document becomes several malformed ones", mn.loc(loop))
+        elif it == "sys.stdin" or it.endswith(".split('\\n')") or "readline" in it:
+            run.ob("C20.S3", "main[ndjson]|framing", True, f"documents are taken from `{it}`: the file's own line iteration (splits on line feeds only)", mn.loc(loop))
+        else:
+            run.inconclusive("C20.S3", "main[ndjson]|framing", f"documents are taken from `{it}`: unrecognised framing")
     stmts = [s for s in ast.walk(pj) if isinstance(s, (ast.Assign, ast.AugAssign, ast.Delete))]
     act_writes = [s for s in stmts if any(isinstance(t, ast.Subscript) and dotted(t.value) == "activation" for t in (s.targets if isinstance(s, (ast.Assign, ast.Delete)) else [s.target]))]
     bind_ok = len(act_writes) == 1 and ast.unparse(act_writes[0].targets[0]) == "activation[variable]" and "json.loads(document" in ast.unparse(act_writes[0].value)
     ev_calls = [c for c in ast.walk(pj) if isinstance(c, ast.Call) and isinstance(c.func, ast.Attribute) and c.func.attr == "evaluate"]
     order_ok = bool(ev_calls) and bool(act_writes) and act_writes[0].lineno < ev_calls[0].lineno
-    run.ob("C20.S3", "process_json_doc|binding", bind_ok and order_ok,
+    run.shape("C20.S3", "process_json_doc|binding", bind_ok and order_ok,
            "the current document (and nothing else) is stored into the activation before evaluate(): the k-th output depends only on the k-th document", mn.loc(pj))
     glob_writes = [n for n in ast.walk(pj) if isinstance(n, (ast.Global, ast.Nonlocal))]
     run.ob("C20.S3", "process_json_doc|no-outer-state", not glob_writes, "process_json_doc writes no outer state", mn.loc(pj))
@@ -185,6 +219,6 @@ def check(repo: Repo, run: Run) -> None:
     fmt = [d for d in disp if ".format(" in ast.unparse(d)]
     sel = any(isinstance(n, ast.If) and ast.unparse(n.test) == "options.format" and any(d in ast.walk(n) for d in fmt) and any(d in ast.walk(ast.Module(body=n.orelse, type_ignores=[])) for d in enc)
               for n in ast.walk(main))
-    run.ob("C20.S4", "main|encoder", bool(enc) and sel, "results are printed with json.dumps(..., cls=CELJSONEncoder) unless --format is given", mn.loc(main))
+    run.shape("C20.S4", "main|encoder", bool(enc) and sel, "results are printed with json.dumps(..., cls=CELJSONEncoder) unless --format is given", mn.loc(main))
     # slurp uses the same per-document function
-    run.ob("C20.S2", "main[slurp]", "sys.stdin.read()" in ast.unparse(main) and ast.unparse(main).count("process_json_doc(") >= 2, "slurp mode evaluates the whole input as one document through process_json_doc", mn.loc(main))
+    run.shape("C20.S2", "main[slurp]", "sys.stdin.read()" in ast.unparse(main_n) and ast.unparse(main_n).count("process_json_doc(") >= 2, "slurp mode evaluates the whole input as one document through process_json_doc", mn.loc(main))
